@@ -29,7 +29,8 @@ SelNames == <<"up", "up_sim", "dn", "dn_sim", "dr", "dr_sim", "dro", "dro_sim">>
 (* C01  InclPost: every selection returns Incl(A,B)                        *)
 (***************************************************************************)
 InclFails(e) ==
-  LET A == ToAut(e.A)  B == ToAut(e.B)  exp == TF(Incl(A, B))
+  \* "swap": the call was CheckInclusion(B, A) (the second operand - e.g. an edited copy of the first - as the smaller one)
+  LET A == ToAut(e.A)  B == ToAut(e.B)  exp == TF(IF Has(e, "swap") THEN Incl(B, A) ELSE Incl(A, B))
   IN {SelNames[i] : i \in {j \in 1..8 : e.res.v[j] # exp}} \cup Why(Unchanged(e), "operand-changed")
 
 (***************************************************************************)
